@@ -78,9 +78,10 @@ pub struct Workload {
     /// the directory stays writable, so replacing it by rename still works
     #[serde(default)]
     pub ro_file: bool,
-    /// every other writer names the output by its absolute path
+    /// every other writer names the output by another spelling: 1 absolute path,
+    /// 2 "./r/out.hex", 3 "r/../r/out.hex", 4 through a symlink to the directory
     #[serde(default)]
-    pub abs_out: bool,
+    pub out_form: u8,
 }
 
 pub const F_SHORT: u32 = 1;
@@ -285,7 +286,7 @@ pub fn generate(rng: &mut Rng, thorough: bool) -> Workload {
         },
         stall_from: *rng.pick(&[0u16, 0, 3, 6, 10, 14]),
         ro_file: rng.chance(1, 12),
-        abs_out: rng.chance(1, 4),
+        out_form: if rng.chance(1, 3) { rng.range(1, 4) as u8 } else { 0 },
     }
 }
 
@@ -323,6 +324,10 @@ fn input_path(i: usize) -> String {
 pub fn setup_dir(wl: &Workload) -> Option<Vec<u8>> {
     let _ = fs::remove_dir_all(DIR);
     fs::create_dir_all(DIR).expect("mkdir sandbox run dir");
+    let _ = fs::remove_file("r_link");
+    if wl.out_form == 4 {
+        let _ = std::os::unix::fs::symlink(DIR, "r_link");
+    }
     let mut initial: Option<Vec<u8>> = None;
     match &wl.initial {
         InitialOut::Absent => {}
@@ -389,7 +394,7 @@ fn py_path_compile(input: &str, output: &str) -> Result<(), String> {
     chialisp::util::gentle_overwrite(input, output, &hex_text)
 }
 
-fn writer_body(idx: usize, w: Writer, abs_out: bool) -> Box<dyn FnOnce(&Actor) + Send + 'static> {
+fn writer_body(idx: usize, w: Writer, out_form: u8) -> Box<dyn FnOnce(&Actor) + Send + 'static> {
     Box::new(move |actor: &Actor| {
         let (data, out_path) = {
             let _g = seam::HarnessGuard::new();
@@ -397,11 +402,13 @@ fn writer_body(idx: usize, w: Writer, abs_out: bool) -> Box<dyn FnOnce(&Actor) +
                 Api::Atomic | Api::Gentle => materialise(&w.data),
                 _ => String::new(),
             };
-            // the same file, spelt as an absolute path (other parent-directory handling)
-            let o = if abs_out {
-                format!("{}/{}", seam::root(), OUT)
-            } else {
-                OUT.to_string()
+            // the same file under other spellings (other parent-directory handling)
+            let o = match out_form {
+                1 => format!("{}/{}", seam::root(), OUT),
+                2 => format!("./{}", OUT),
+                3 => format!("{}/../{}", DIR, OUT),
+                4 => format!("r_link/{}", &OUT[DIR.len() + 1..]),
+                _ => OUT.to_string(),
             };
             (d, o)
         };
@@ -1144,7 +1151,7 @@ pub fn run_one(wl: &Workload, tape: &mut Tape, entropy_seed: u64) -> Result<RunR
             } else {
                 1 << 20
             },
-            body: writer_body(i, w.clone(), wl.abs_out && i % 2 == 0),
+            body: writer_body(i, w.clone(), if i % 2 == 0 { wl.out_form } else { 0 }),
         });
     }
     for r in 0..wl.readers as usize {
@@ -1203,7 +1210,7 @@ pub fn run_one(wl: &Workload, tape: &mut Tape, entropy_seed: u64) -> Result<RunR
             stalled: None,
             stall_from: 0,
             ro_file: false,
-            abs_out: false,
+            out_form: 0,
         };
         let world2 = seam::new_world(1, true, world.now_ns());
         let mut pol2 = LivenessPolicy {};
@@ -1212,7 +1219,7 @@ pub fn run_one(wl: &Workload, tape: &mut Tape, entropy_seed: u64) -> Result<RunR
             entropy_seed: mix(entropy_seed, 999),
             skew_ns: 0,
             stack_bytes: 1 << 20,
-            body: writer_body(0, lw.writers[0].clone(), false),
+            body: writer_body(0, lw.writers[0].clone(), 0),
         }];
         let out2 = sched::run(world2.clone(), specs2, tape, &mut pol2, 64, Duration::from_secs(60))
             .map_err(|e| format!("{:?}", e))?;
@@ -1380,9 +1387,9 @@ impl Prop for C19 {
             c.ro_file = false;
             out.push(c);
         }
-        if w.abs_out {
+        if w.out_form != 0 {
             let mut c = w.clone();
-            c.abs_out = false;
+            c.out_form = 0;
             out.push(c);
         }
         if w.clock_mode != 0 {
@@ -1454,7 +1461,7 @@ impl Prop for C19 {
     }
     fn assumptions() -> Vec<String> {
         vec![
-            "a simulated process is a thread of the harness; writers share nothing but the directory, so this is faithful for C19".to_string(),
+            "a simulated process is a thread of the harness; writers share nothing but the directory, so this is faithful for C19 as long as the code under test keeps no per-process state: simulated processes share the pid and all statics, so a change that relies on per-process identity for uniqueness (e.g. temp names built from getpid() and a process-wide counter, which collide only across PID namespaces) is invisible here (seeded/C19-temp-name-from-pid-and-counter)".to_string(),
             "process death is modelled by ghosting: from the crash instant every file-system call of the dead actor fails without reaching the kernel; power loss (unsynced data vanishing) is not modelled because C19 states process death only".to_string(),
             "the disk is the kernel's tmpfs: rename/O_EXCL/unlink semantics are the real ones; interleavings are explored at system-call granularity, each call being atomic as the kernel makes it".to_string(),
             "exploration samples schedules and fault placements; a clean batch is evidence, not proof".to_string(),
